@@ -334,7 +334,9 @@ class FA:
 
     def _literal(self, t, node_id, positive):
         """Canonical text of one literal: locals expanded, `x is not None` as the negation of `x is None`,
-        `a != b` as the negation of `a == b`, `a not in b` of `a in b`, operands of == sorted."""
+        `a != b` as the negation of `a == b`, `a not in b` of `a in b`, operands of == sorted; `bool(E)` is E."""
+        while isinstance(t, ast.Call) and isinstance(t.func, ast.Name) and t.func.id == "bool" and len(t.args) == 1 and not t.keywords:
+            t = t.args[0]
         if isinstance(t, ast.Compare) and len(t.ops) == 1:
             op = t.ops[0]
             l, r = t.left, t.comparators[0]
